@@ -106,6 +106,17 @@ theorem toSession_fields (s : St) (x : Item) :
     (toSession s x).socket = s.socket ∧ (toSession s x).closed = s.closed := by
   unfold toSession; split <;> simp
 
+theorem toSession_spill (s : St) (x : Item) : (toSession s x).spill = s.spill := by
+  unfold toSession; split <;> rfl
+
+theorem emit_spill (cfg : Cfg) (s : St) (S : Nat) (x : Item) : (emit cfg s S x).spill = s.spill := by
+  unfold emit
+  split
+  · split
+    · exact toSession_spill s x
+    · rfl
+  · rfl
+
 /-- `chSend c ++ lost c` after handing `x` to its session, given the session
 is either open with nothing lost, or closed -/
 theorem toSession_tail (s : St) (x : Item) (hl : s.closed x.client = false → s.lost x.client = []) (σ : Src) (c : Nat) :
@@ -205,10 +216,13 @@ theorem emit_proj (cfg : Cfg) (hld : cfg.localDirect = true) (s : St) (h : Shape
 
 /-! ### one step preserves the invariant -/
 
-theorem wf_issue (cfg : Cfg) (hld : cfg.localDirect = true) (s : St) (h : WF s) (S c0 : Nat) (k : Kind) (s' : St)
+theorem wf_issue (cfg : Cfg) (hld : cfg.localDirect = true) (hso : cfg.sendOverflow = false) (s : St) (h : WF s) (S c0 : Nat) (k : Kind) (s' : St)
     (hf : fire cfg s (.issue S c0 k) = some s') : WF s' := by
-  simp only [fire, Option.some.injEq] at hf
+  simp only [fire, fireAt] at hf
   generalize hxd : (⟨⟨S, 0⟩, c0, nextSeq s ⟨S, 0⟩ c0, k⟩ : Item) = x at hf
+  split at hf
+  · simp [hso] at hf
+  simp only [Option.some.injEq] at hf
   have hx : x.src = ⟨S, 0⟩ := by subst hxd; rfl
   have hxs : x.src.svc = S := by rw [hx]
   have h1 : Shape { s with issued := s.issued ++ [x] } :=
@@ -227,12 +241,14 @@ theorem wf_issue (cfg : Cfg) (hld : cfg.localDirect = true) (s : St) (h : WF s) 
     simp [tailPart, t1, t2]
   · simp [sel_single_miss σ c x hm]
 
-theorem wf_run (cfg : Cfg) (hld : cfg.localDirect = true) (s : St) (h : WF s) (S : Nat) (s' : St)
+theorem wf_run (cfg : Cfg) (hld : cfg.localDirect = true) (hso : cfg.sendOverflow = false) (s : St) (h : WF s) (S : Nat) (s' : St)
     (hf : fire cfg s (.run S) = some s') : WF s' := by
-  simp only [fire] at hf
+  simp only [fire, fireAt] at hf
   split at hf
   · cases hf
   · rename_i x rest ht
+    split at hf
+    · simp [hso] at hf
     simp only [Option.some.injEq] at hf
     have hxs : x.src.svc = S := (h.taskSrc S x (by rw [ht]; simp)).1
     have h1 : Shape { s with task := upd s.task S rest } := by
@@ -260,7 +276,7 @@ theorem wf_run (cfg : Cfg) (hld : cfg.localDirect = true) (s : St) (h : WF s) (S
 
 theorem wf_post (cfg : Cfg) (hd : cfg.defend = false) (s : St) (h : WF s) (S p c0 : Nat) (k : Kind) (s' : St)
     (hf : fire cfg s (.post S p c0 k) = some s') : WF s' := by
-  simp only [fire, hd, Bool.false_eq_true, false_and, if_false] at hf
+  simp only [fire, fireAt, hd, Bool.false_eq_true, false_and, if_false] at hf
   split at hf
   · cases hf
   · rename_i ho
@@ -289,7 +305,7 @@ theorem wf_post (cfg : Cfg) (hd : cfg.defend = false) (s : St) (h : WF s) (S p c
 
 theorem wf_send (cfg : Cfg) (s : St) (h : WF s) (S p : Nat) (s' : St)
     (hf : fire cfg s (.send S p) = some s') : WF s' := by
-  simp only [fire] at hf
+  simp only [fire, fireAt] at hf
   split at hf
   · cases hf
   · rename_i x ho
@@ -327,11 +343,11 @@ theorem wf_send (cfg : Cfg) (s : St) (h : WF s) (S p : Nat) (s' : St)
 
 theorem wf_sendDetached (cfg : Cfg) (s : St) (h : WF s) (S i : Nat) (s' : St)
     (hf : fire cfg s (.sendDetached S i) = some s') : WF s' := by
-  simp [fire, h.noDetached S] at hf
+  simp [fire, fireAt, h.noDetached S] at hf
 
 theorem wf_deliver (cfg : Cfg) (s : St) (h : WF s) (S : Nat) (s' : St)
     (hf : fire cfg s (.deliver S) = some s') : WF s' := by
-  simp only [fire] at hf
+  simp only [fire, fireAt] at hf
   split at hf
   · cases hf
   · rename_i x rest ht
@@ -362,12 +378,14 @@ theorem wf_deliver (cfg : Cfg) (s : St) (h : WF s) (S : Nat) (s' : St)
       · have hm : ¬ (x.src = σ ∧ x.client = c) := fun hm => e (by rw [← hm.1, hxs])
         simp [outL, upd_other _ _ _ _ e, sel_single_miss σ c x hm]
 
-theorem wf_process (cfg : Cfg) (s : St) (h : WF s) (s' : St)
+theorem wf_process (cfg : Cfg) (hso : cfg.sendOverflow = false) (s : St) (h : WF s) (s' : St)
     (hf : fire cfg s .process = some s') : WF s' := by
-  simp only [fire] at hf
+  simp only [fire, fireAt] at hf
   split at hf
   · cases hf
   · rename_i x rest hm
+    split at hf
+    · simp [hso] at hf
     simp only [Option.some.injEq] at hf
     subst hf
     obtain ⟨e1, e2, e3, e4, e5, e6, e7, _⟩ := toSession_fields { s with mailbox := rest } x
@@ -390,7 +408,7 @@ theorem wf_process (cfg : Cfg) (s : St) (h : WF s) (s' : St)
 
 theorem wf_write (cfg : Cfg) (s : St) (h : WF s) (c0 : Nat) (s' : St)
     (hf : fire cfg s (.write c0) = some s') : WF s' := by
-  simp only [fire] at hf
+  simp only [fire, fireAt] at hf
   split at hf
   · cases hf
   · rename_i x rest hc
@@ -410,7 +428,7 @@ theorem wf_write (cfg : Cfg) (s : St) (h : WF s) (c0 : Nat) (s' : St)
 
 theorem wf_close (cfg : Cfg) (s : St) (h : WF s) (c0 : Nat) (s' : St)
     (hf : fire cfg s (.close c0) = some s') : WF s' := by
-  simp only [fire] at hf
+  simp only [fire, fireAt] at hf
   split at hf
   · cases hf
   · simp only [Option.some.injEq] at hf
@@ -424,7 +442,7 @@ theorem wf_close (cfg : Cfg) (s : St) (h : WF s) (c0 : Nat) (s' : St)
 
 theorem wf_writerStop (cfg : Cfg) (s : St) (h : WF s) (c0 : Nat) (s' : St)
     (hf : fire cfg s (.writerStop c0) = some s') : WF s' := by
-  simp only [fire] at hf
+  simp only [fire, fireAt] at hf
   split at hf
   · rename_i hcl
     simp only [Option.some.injEq] at hf
@@ -446,25 +464,100 @@ theorem wf_writerStop (cfg : Cfg) (s : St) (h : WF s) (c0 : Nat) (s' : St)
   · cases hf
 
 /-- **the invariant is inductive** (overflow path off, front-local pushes in place) -/
-theorem wf_step (cfg : Cfg) (hd : cfg.defend = false) (hld : cfg.localDirect = true) (s s' : St) (l : Label)
-    (h : WF s) (hf : fire cfg s l = some s') : WF s' := by
+theorem wf_step (cfg : Cfg) (hd : cfg.defend = false) (hld : cfg.localDirect = true) (hso : cfg.sendOverflow = false)
+    (s s' : St) (l : Label) (h : WF s) (hns : s.spill = []) (hf : fire cfg s l = some s') : WF s' := by
   cases l with
-  | issue S c k => exact wf_issue cfg hld s h S c k s' hf
+  | spillSend i => simp [fire, fireAt, hns] at hf
+  | issue S c k => exact wf_issue cfg hld hso s h S c k s' hf
   | post S p c k => exact wf_post cfg hd s h S p c k s' hf
   | send S p => exact wf_send cfg s h S p s' hf
   | sendDetached S i => exact wf_sendDetached cfg s h S i s' hf
-  | run S => exact wf_run cfg hld s h S s' hf
+  | run S => exact wf_run cfg hld hso s h S s' hf
   | deliver S => exact wf_deliver cfg s h S s' hf
-  | process => exact wf_process cfg s h s' hf
+  | process => exact wf_process cfg hso s h s' hf
   | write c => exact wf_write cfg s h c s' hf
   | close c => exact wf_close cfg s h c s' hf
   | writerStop c => exact wf_writerStop cfg s h c s' hf
 
-theorem wf_reachable (cfg : Cfg) (hd : cfg.defend = false) (hld : cfg.localDirect = true) (s : St)
-    (h : Reachable cfg s) : WF s := by
+/-- without the overflow path nothing is ever handed to a helper goroutine -/
+theorem nospill_step (cfg : Cfg) (hso : cfg.sendOverflow = false) (s s' : St) (l : Label)
+    (hns : s.spill = []) (hf : fire cfg s l = some s') : s'.spill = [] := by
+  cases l with
+  | issue S c k =>
+    simp only [fire, fireAt] at hf
+    split at hf
+    · simp [hso] at hf
+    simp only [Option.some.injEq] at hf
+    subst hf
+    rw [emit_spill]; exact hns
+  | post S p c k =>
+    simp only [fire, fireAt] at hf
+    split at hf
+    · cases hf
+    · split at hf <;> (simp only [Option.some.injEq] at hf; subst hf; exact hns)
+  | send S p =>
+    simp only [fire, fireAt] at hf
+    split at hf
+    · cases hf
+    · split at hf
+      · simp only [Option.some.injEq] at hf; subst hf; exact hns
+      · cases hf
+  | sendDetached S i =>
+    simp only [fire, fireAt] at hf
+    split at hf
+    · cases hf
+    · split at hf
+      · simp only [Option.some.injEq] at hf; subst hf; exact hns
+      · cases hf
+  | run S =>
+    simp only [fire, fireAt] at hf
+    split at hf
+    · cases hf
+    · split at hf
+      · simp [hso] at hf
+      simp only [Option.some.injEq] at hf
+      subst hf
+      rw [emit_spill]; exact hns
+  | deliver S =>
+    simp only [fire, fireAt] at hf
+    split at hf
+    · cases hf
+    · simp only [Option.some.injEq] at hf; subst hf; exact hns
+  | process =>
+    simp only [fire, fireAt] at hf
+    split at hf
+    · cases hf
+    · split at hf
+      · simp [hso] at hf
+      simp only [Option.some.injEq] at hf
+      subst hf
+      rw [toSession_spill]; exact hns
+  | write c0 =>
+    simp only [fire, fireAt] at hf
+    split at hf
+    · cases hf
+    · simp only [Option.some.injEq] at hf; subst hf; exact hns
+  | close c0 =>
+    simp only [fire, fireAt] at hf
+    split at hf
+    · cases hf
+    · simp only [Option.some.injEq] at hf; subst hf; exact hns
+  | writerStop c0 =>
+    simp only [fire, fireAt] at hf
+    split at hf
+    · simp only [Option.some.injEq] at hf; subst hf; exact hns
+    · cases hf
+  | spillSend i => simp [fire, fireAt, hns] at hf
+
+theorem wf_reachable' (cfg : Cfg) (hd : cfg.defend = false) (hld : cfg.localDirect = true)
+    (hso : cfg.sendOverflow = false) (s : St) (h : Reachable cfg s) : WF s ∧ s.spill = [] := by
   induction h with
-  | init => exact wf_init
-  | step l _ hf ih => exact wf_step cfg hd hld _ _ l ih hf
+  | init => exact ⟨wf_init, rfl⟩
+  | step l _ hf ih => exact ⟨wf_step cfg hd hld hso _ _ l ih.1 ih.2 hf, nospill_step cfg hso _ _ l ih.2 hf⟩
+
+theorem wf_reachable (cfg : Cfg) (hd : cfg.defend = false) (hld : cfg.localDirect = true)
+    (hso : cfg.sendOverflow = false) (s : St) (h : Reachable cfg s) : WF s :=
+  (wf_reachable' cfg hd hld hso s h).1
 
 /-! ### connection tags and counters (any configuration) -/
 
@@ -508,49 +601,62 @@ theorem tagged_emit (cfg : Cfg) (s : St) (S : Nat) (x : Item) (h : Tagged s) : T
 theorem tagged_step (cfg : Cfg) (s s' : St) (l : Label) (h : Tagged s) (hf : fire cfg s l = some s') : Tagged s' := by
   cases l with
   | issue S c k =>
-    simp only [fire, Option.some.injEq] at hf
+    simp only [fire, fireAt] at hf
+    split at hf
+    · split at hf
+      · simp only [Option.some.injEq] at hf; subst hf; exact h
+      · cases hf
+    simp only [Option.some.injEq] at hf
     subst hf
     exact tagged_emit cfg _ S _ h
   | post S p c k =>
-    simp only [fire] at hf
+    simp only [fire, fireAt] at hf
     split at hf
     · cases hf
     · split at hf <;> (simp only [Option.some.injEq] at hf; subst hf; exact h)
   | send S p =>
-    simp only [fire] at hf
+    simp only [fire, fireAt] at hf
     split at hf
     · cases hf
     · split at hf
       · simp only [Option.some.injEq] at hf; subst hf; exact h
       · cases hf
   | sendDetached S i =>
-    simp only [fire] at hf
+    simp only [fire, fireAt] at hf
     split at hf
     · cases hf
     · split at hf
       · simp only [Option.some.injEq] at hf; subst hf; exact h
       · cases hf
   | run S =>
-    simp only [fire] at hf
+    simp only [fire, fireAt] at hf
     split at hf
     · cases hf
-    · simp only [Option.some.injEq] at hf
+    · split at hf
+      · split at hf
+        · simp only [Option.some.injEq] at hf; subst hf; exact h
+        · cases hf
+      simp only [Option.some.injEq] at hf
       subst hf
       exact tagged_emit cfg _ S _ h
   | deliver S =>
-    simp only [fire] at hf
+    simp only [fire, fireAt] at hf
     split at hf
     · cases hf
     · simp only [Option.some.injEq] at hf; subst hf; exact h
   | process =>
-    simp only [fire] at hf
+    simp only [fire, fireAt] at hf
     split at hf
     · cases hf
-    · simp only [Option.some.injEq] at hf
+    · split at hf
+      · split at hf
+        · simp only [Option.some.injEq] at hf; subst hf; exact h
+        · cases hf
+      simp only [Option.some.injEq] at hf
       subst hf
       exact tagged_toSession _ _ h
   | write c0 =>
-    simp only [fire] at hf
+    simp only [fire, fireAt] at hf
     split at hf
     · cases hf
     · rename_i x rest hc
@@ -568,12 +674,12 @@ theorem tagged_step (cfg : Cfg) (s s' : St) (l : Label) (h : Tagged s) (hf : fir
       · simp only [upd_other _ _ _ _ e] at hy
         exact h c y hy
   | close c0 =>
-    simp only [fire] at hf
+    simp only [fire, fireAt] at hf
     split at hf
     · cases hf
     · simp only [Option.some.injEq] at hf; subst hf; exact h
   | writerStop c0 =>
-    simp only [fire] at hf
+    simp only [fire, fireAt] at hf
     split at hf
     · simp only [Option.some.injEq] at hf
       subst hf
@@ -588,6 +694,15 @@ theorem tagged_step (cfg : Cfg) (s s' : St) (l : Label) (h : Tagged s) (hf : fir
       · simp only [upd_other _ _ _ _ e] at hy
         exact h c y hy
     · cases hf
+  | spillSend i =>
+    simp only [fire, fireAt] at hf
+    split at hf
+    · cases hf
+    · split at hf
+      · cases hf
+      · simp only [Option.some.injEq] at hf
+        subst hf
+        exact tagged_toSession _ _ h
 
 theorem tagged_reachable (cfg : Cfg) (s : St) (h : Reachable cfg s) : Tagged s := by
   induction h with
@@ -605,6 +720,9 @@ theorem arrived_eq_sel (s : St) (h : Tagged s) (σ : Src) (c : Nat) : arrived s 
 def Numbered (s : St) : Prop :=
   ∀ σ c, (sel σ c s.issued).map (·.seq) = List.range (sel σ c s.issued).length
 
+theorem nextSeq_eq (s : St) (σ : Src) (c : Nat) : nextSeq s σ c = (sel σ c s.issued).length := by
+  simp [nextSeq, sel, List.countP_eq_length_filter]
+
 theorem numbered_snoc (s : St) (h : Numbered s) (σ0 : Src) (c0 : Nat) (k : Kind) :
     ∀ σ c, (sel σ c (s.issued ++ [⟨σ0, c0, nextSeq s σ0 c0, k⟩])).map (·.seq) =
       List.range (sel σ c (s.issued ++ [⟨σ0, c0, nextSeq s σ0 c0, k⟩])).length := by
@@ -613,7 +731,7 @@ theorem numbered_snoc (s : St) (h : Numbered s) (σ0 : Src) (c0 : Nat) (k : Kind
   by_cases hm : σ0 = σ ∧ c0 = c
   · obtain ⟨rfl, rfl⟩ := hm
     rw [sel_single_hit σ0 c0 ⟨σ0, c0, nextSeq s σ0 c0, k⟩ ⟨rfl, rfl⟩]
-    simp [List.range_succ, h σ0 c0, nextSeq]
+    simp [List.range_succ, h σ0 c0, nextSeq_eq]
   · rw [sel_single_miss σ c ⟨σ0, c0, nextSeq s σ0 c0, k⟩ hm]
     simpa using h σ c
 
@@ -626,69 +744,93 @@ theorem numbered_step (cfg : Cfg) (s s' : St) (l : Label) (h : Numbered s) (hf :
     Numbered s' := by
   cases l with
   | issue S c k =>
-    simp only [fire, Option.some.injEq] at hf
+    simp only [fire, fireAt] at hf
+    split at hf
+    · split at hf
+      · simp only [Option.some.injEq] at hf; subst hf; exact numbered_snoc s h ⟨S, 0⟩ c k
+      · cases hf
+    simp only [Option.some.injEq] at hf
     subst hf
     unfold Numbered
     rw [emit_issued]
     exact numbered_snoc s h ⟨S, 0⟩ c k
   | post S p c k =>
-    simp only [fire] at hf
+    simp only [fire, fireAt] at hf
     split at hf
     · cases hf
     · split at hf <;>
         (simp only [Option.some.injEq] at hf; subst hf; exact numbered_snoc s h ⟨S, p + 1⟩ c k)
   | send S p =>
-    simp only [fire] at hf
+    simp only [fire, fireAt] at hf
     split at hf
     · cases hf
     · split at hf
       · simp only [Option.some.injEq] at hf; subst hf; exact h
       · cases hf
   | sendDetached S i =>
-    simp only [fire] at hf
+    simp only [fire, fireAt] at hf
     split at hf
     · cases hf
     · split at hf
       · simp only [Option.some.injEq] at hf; subst hf; exact h
       · cases hf
   | run S =>
-    simp only [fire] at hf
+    simp only [fire, fireAt] at hf
     split at hf
     · cases hf
-    · simp only [Option.some.injEq] at hf
+    · split at hf
+      · split at hf
+        · simp only [Option.some.injEq] at hf; subst hf; exact h
+        · cases hf
+      simp only [Option.some.injEq] at hf
       subst hf
       unfold Numbered
       rw [emit_issued]
       exact h
   | deliver S =>
-    simp only [fire] at hf
+    simp only [fire, fireAt] at hf
     split at hf
     · cases hf
     · simp only [Option.some.injEq] at hf; subst hf; exact h
   | process =>
-    simp only [fire] at hf
+    simp only [fire, fireAt] at hf
     split at hf
     · cases hf
-    · simp only [Option.some.injEq] at hf
+    · split at hf
+      · split at hf
+        · simp only [Option.some.injEq] at hf; subst hf; exact h
+        · cases hf
+      simp only [Option.some.injEq] at hf
       subst hf
       unfold Numbered
       rw [(toSession_fields _ _).1]
       exact h
   | write c0 =>
-    simp only [fire] at hf
+    simp only [fire, fireAt] at hf
     split at hf
     · cases hf
     · simp only [Option.some.injEq] at hf; subst hf; exact h
   | close c0 =>
-    simp only [fire] at hf
+    simp only [fire, fireAt] at hf
     split at hf
     · cases hf
     · simp only [Option.some.injEq] at hf; subst hf; exact h
   | writerStop c0 =>
-    simp only [fire] at hf
+    simp only [fire, fireAt] at hf
     split at hf
     · simp only [Option.some.injEq] at hf; subst hf; exact h
     · cases hf
+  | spillSend i =>
+    simp only [fire, fireAt] at hf
+    split at hf
+    · cases hf
+    · split at hf
+      · cases hf
+      · simp only [Option.some.injEq] at hf
+        subst hf
+        unfold Numbered
+        rw [(toSession_fields _ _).1]
+        exact h
 
 theorem numbered_reachable (cfg : Cfg) (s : St) (h : Reachable cfg s) : Numbered s := by
   induction h with
